@@ -167,6 +167,7 @@ func (f c18Factory) Create(address string) (types.Backend, error) {
 	}
 	return r, nil
 }
+
 // the REAL signalling and liveness probe of backend/remote (HTTP through the in-process transport to the model node)
 func (f c18Factory) SignalToAdd(address, action string) error {
 	return (&remote.Factory{}).SignalToAdd(address, action)
@@ -415,6 +416,9 @@ func (cl *c18Cluster) op(name string) string {
 		return name + ":" + e(c.RemoveReplica(c18addr(idx())))
 	case strings.HasPrefix(name, "Add"):
 		return name + ":" + e(c.AddReplica(c18addr(idx())))
+	case strings.HasPrefix(name, "Grow"):
+		// volume resize to the initial size plus <k> blocks (a request below the current size must be refused)
+		return name + ":" + e(c.Resize("vol", fmt.Sprint(eb.VolSize+idx()*eb.Block)))
 	case strings.HasPrefix(name, "Prep"):
 		// the controller's part of the start of a rebuild (chain look-ups on the source and on the joiner, transfer of the
 		// head's metadata through the sync agents - which the model nodes do not have: the call ends in an error there)
@@ -784,6 +788,26 @@ func c18Configs(tier string) []C18Cfg {
 }
 
 func checkC18() int { return checkSimple("C18", "C18atom", "C18-atomicity.part") }
+
+// c16GrowConfigs: overlapping volume resize requests on the controller (part C16grow of C16): two grows to different
+// sizes, a grow against writes, snapshot, a monitor failure and a removal.  A request that arrives while a larger grow
+// is in progress is a shrink by the time it is served: it must be refused without reaching a replica.
+func c16GrowConfigs(tier string) []C18Cfg {
+	var out []C18Cfg
+	add := func(init string, ops ...string) { out = append(out, C18Cfg{Name: "grow", Init: init, Ops: ops}) }
+	for _, p := range [][]string{{"Grow2", "Grow1"}, {"Grow1", "Grow1"}, {"Grow2", "W0"}, {"Grow2", "R"}, {"Grow2", "Snap"}, {"Grow2", "Mon1"}, {"Grow2", "Rm1"}} {
+		add("rw3", p...)
+	}
+	add("rf2", "Grow2", "Grow1")
+	add("rw2wo", "Grow2", "Grow1")
+	if tier == "thorough" {
+		add("rw3", "Grow2", "Grow1", "W0")
+		add("rw3", "Grow3", "Grow2", "Grow1")
+	}
+	return out
+}
+
+func checkC16Grow() int { return checkSimple("C16", "C16grow", "C16-grow.part") }
 
 // c13Configs: the snapshot-centred configurations of the controller-atomicity harness (part C13conc of C13): a volume
 // snapshot runs concurrently with replica-set changes and writes.  A snapshot that is taken on fewer than RF replicas,
